@@ -334,6 +334,7 @@ type c12Tampered struct {
 	root, com []byte
 	meta      bool   // only unauthenticated metadata changed: acceptance is not a violation
 	js        string // JSON text when the tamper is a byte mutation
+	detail    string // what was done (row-range families)
 }
 
 // c12TamperCP applies one tamper family. donor: an honest proof of a blob with a DIFFERENT commitment of the same block.
@@ -525,6 +526,117 @@ func c12TamperCP(name string, cp, donor *CommitmentProof, root, com, otherRoot, 
 			t.cp = &dec
 		}
 		return t
+	}
+	return t
+}
+
+// ---------------------------------------------------------------- row-range arithmetic (uint32 boundaries)
+
+// Validate computes the row count as int(EndRow-StartRow+1) in uint32: an inverted range StartRow = EndRow+1 and the full
+// range [0, MaxUint32] both wrap to ZERO rows, and an inverted range can wrap to any count.  Only celestia-app's
+// RowProof.Validate (called by Verify) refuses EndRow < StartRow and an empty list of row roots.
+var c12RowTampers = []string{"trim-all-inverted", "trim-all-wrapped", "trim-all-zero", "trim-all-keep-rows", "rows-inverted-same-count",
+	"rows-inverted-zero", "rows-swapped", "end-row-max", "start-row-max", "rows-full-range", "zero-rows-keep-roots"}
+
+const c12InvertedVariants = 4
+
+const c12MaxU32 = ^uint32(0)
+
+// c12TamperRows: families around the row range.  "trim-all-*": every component dropped (the commitment presented is the hash
+// of the empty list of subtree roots, which anybody can compute) with the row range spelled so that the uint32 count is 0
+// (or not); the others keep the honest components and move the range to the uint32 boundaries.
+func c12TamperRows(name string, variant int, viaJSON bool, cp *CommitmentProof, root, com, otherRoot []byte, rng *zv.Rand) *c12Tampered {
+	t := &c12Tampered{cp: c12CloneCP(cp), root: root, com: com}
+	q := t.cp
+	n := uint32(len(q.RowProof.RowRoots))
+	s0, e0 := q.RowProof.StartRow, q.RowProof.EndRow
+	trim := func() {
+		q.SubtreeRoots, q.SubtreeRootProofs = nil, nil
+		q.RowProof.RowRoots, q.RowProof.Proofs = nil, nil
+		t.com = merkle.HashFromByteSlices(nil)
+		switch rng.Intn(3) {
+		case 0:
+			if otherRoot != nil {
+				t.root = otherRoot
+			}
+		case 1:
+			t.root = rng.Bytes(32)
+		}
+		if rng.Bool() {
+			q.NamespaceID, q.NamespaceVersion = nil, 0
+		}
+	}
+	switch name {
+	case "trim-all-inverted":
+		trim()
+		switch variant {
+		case 0:
+			q.RowProof.StartRow, q.RowProof.EndRow = 1, 0
+		case 1:
+			q.RowProof.StartRow, q.RowProof.EndRow = c12MaxU32, c12MaxU32-1
+		case 2:
+			q.RowProof.StartRow, q.RowProof.EndRow = e0+1, e0
+		default:
+			e := uint32(rng.U64()) &^ 1
+			q.RowProof.StartRow, q.RowProof.EndRow = e+1, e
+		}
+	case "trim-all-wrapped":
+		trim()
+		q.RowProof.StartRow, q.RowProof.EndRow = 0, c12MaxU32
+	case "trim-all-zero":
+		trim()
+		q.RowProof.StartRow, q.RowProof.EndRow = 0, 0
+	case "trim-all-keep-rows":
+		trim()
+	case "rows-inverted-same-count":
+		// EndRow < StartRow and EndRow - StartRow + 1 == n (mod 2^32)
+		if n < 2 {
+			return nil
+		}
+		e := uint32(rng.Intn(int(n) - 1))
+		q.RowProof.StartRow, q.RowProof.EndRow = e-n+1, e
+	case "rows-inverted-zero":
+		q.RowProof.StartRow, q.RowProof.EndRow = e0+1, e0
+	case "rows-swapped":
+		if s0 == e0 {
+			return nil
+		}
+		q.RowProof.StartRow, q.RowProof.EndRow = e0, s0
+	case "end-row-max":
+		q.RowProof.EndRow = c12MaxU32
+	case "start-row-max":
+		q.RowProof.StartRow = c12MaxU32
+	case "rows-full-range":
+		q.RowProof.StartRow, q.RowProof.EndRow = 0, c12MaxU32
+	case "zero-rows-keep-roots":
+		// the uint32 count is 0, the subtree roots (and with them the commitment) stay: rows and proofs dropped
+		q.SubtreeRootProofs, q.RowProof.RowRoots, q.RowProof.Proofs = nil, nil, nil
+		if rng.Bool() {
+			q.RowProof.StartRow, q.RowProof.EndRow = e0+1, e0
+		} else {
+			q.RowProof.StartRow, q.RowProof.EndRow = 0, c12MaxU32
+		}
+	default:
+		return nil
+	}
+	t.detail = fmt.Sprintf("rows [%d,%d] -> [%d,%d], %d subtree roots, %d row roots, json=%v", s0, e0, q.RowProof.StartRow, q.RowProof.EndRow,
+		len(q.SubtreeRoots), len(q.RowProof.RowRoots), viaJSON)
+	if viaJSON {
+		js, err := json.Marshal(q)
+		if err != nil {
+			return nil
+		}
+		t.js = string(js)
+		var dec CommitmentProof
+		if p := zv.Recover(func() { err = json.Unmarshal(js, &dec) }); p != "" {
+			t.cp, t.js = nil, "PANIC:"+p+":"+t.js
+			return t
+		}
+		if err != nil {
+			t.cp = nil
+			return t
+		}
+		t.cp = &dec
 	}
 	return t
 }
@@ -733,6 +845,39 @@ func TestVerifC12(t *testing.T) {
 				if other >= 0 {
 					donor, otherCom = cps[other], blobs[other].ref.com
 				}
+				runTamper := func(name string, tp *c12Tampered) {
+					rp := rep(name, tp.detail)
+					rp.JSON = tp.js
+					if strings.HasPrefix(tp.js, "PANIC:") {
+						r.Violation("commitment-json-panic", "decoding a mutated commitment proof panicked", rp)
+						return
+					}
+					if tp.cp == nil {
+						r.Count("commitment_tamper", name+":undecodable")
+						return
+					}
+					v, err := verify(tp.cp, tp.root, tp.com)
+					r.Count("commitment_tamper", name+":"+v)
+					emit(tp.cp, tp.root, tp.com, v, name)
+					switch v {
+					case "panic":
+						rp.Detail = err.Error()
+						r.Violation("commitment-verify-panic:"+c12PanicClass(name, tp.cp), "CommitmentProof.Verify panicked on a malformed proof: "+err.Error(), rp)
+					case "accept":
+						same := c12CoreSame(tp.cp, cp) && bytes.Equal(tp.root, root) && bytes.Equal(tp.com, b.ref.com)
+						switch {
+						case len(tp.cp.SubtreeRoots) == 0 || len(tp.cp.RowProof.RowRoots) == 0:
+							// nothing is tied to the root: the same proof "verifies" a constant commitment against every data root
+							r.Violation("commitment-empty-proof-accepted:"+name, fmt.Sprintf("a commitment proof with %d subtree roots and %d row roots (rows [%d,%d]) verifies for commitment %x against root %x: it proves nothing",
+								len(tp.cp.SubtreeRoots), len(tp.cp.RowProof.RowRoots), tp.cp.RowProof.StartRow, tp.cp.RowProof.EndRow, tp.com, tp.root), rp)
+						case tp.cp.RowProof.EndRow < tp.cp.RowProof.StartRow:
+							r.Violation("commitment-inverted-rows-accepted:"+name, fmt.Sprintf("a commitment proof claiming the inverted row range [%d,%d] (%d row roots) verifies",
+								tp.cp.RowProof.StartRow, tp.cp.RowProof.EndRow, len(tp.cp.RowProof.RowRoots)), rp)
+						case !same && !tp.meta:
+							r.Violation("commitment-tampered-accepted:"+name, "a tampered commitment proof verifies", rp)
+						}
+					}
+				}
 				for _, name := range c12CPTampers {
 					reps := 1
 					if name == "json-byte" {
@@ -743,27 +888,19 @@ func TestVerifC12(t *testing.T) {
 						if tp == nil {
 							continue
 						}
-						rp := rep(name, "")
-						rp.JSON = tp.js
-						if strings.HasPrefix(tp.js, "PANIC:") {
-							r.Violation("commitment-json-panic", "decoding a mutated commitment proof panicked", rp)
-							continue
-						}
-						if tp.cp == nil {
-							r.Count("commitment_tamper", name+":undecodable")
-							continue
-						}
-						v, err := verify(tp.cp, tp.root, tp.com)
-						r.Count("commitment_tamper", name+":"+v)
-						emit(tp.cp, tp.root, tp.com, v, name)
-						switch v {
-						case "panic":
-							rp.Detail = err.Error()
-							r.Violation("commitment-verify-panic:"+c12PanicClass(name, tp.cp), "CommitmentProof.Verify panicked on a malformed proof: "+err.Error(), rp)
-						case "accept":
-							same := c12CoreSame(tp.cp, cp) && bytes.Equal(tp.root, root) && bytes.Equal(tp.com, b.ref.com)
-							if !same && !tp.meta {
-								r.Violation("commitment-tampered-accepted:"+name, "a tampered commitment proof verifies", rp)
+						runTamper(name, tp)
+					}
+				}
+				// row-range arithmetic at the uint32 boundaries, as a struct and through the JSON form
+				for _, name := range c12RowTampers {
+					variants := 1
+					if name == "trim-all-inverted" {
+						variants = c12InvertedVariants
+					}
+					for variant := 0; variant < variants; variant++ {
+						for _, viaJSON := range []bool{false, true} {
+							if tp := c12TamperRows(name, variant, viaJSON, cp, root, b.ref.com, prevRoot, rng); tp != nil {
+								runTamper(name, tp)
 							}
 						}
 					}
